@@ -3,10 +3,20 @@ package main
 // engine `docupd`: Document.Update with callbacks that succeed, return an error after j calls,
 // panic after j calls, or are rejected by the size limit; interleaved with remote change packs
 // and acknowledgements. Ties Model/Document.lean (C08) to pkg/document/document.go.
+//
+// "A failed update leaves the document, its pending changes AND ITS UNDO HISTORY exactly as
+// before": before and after every update CanUndo/CanRedo, the depths of the two stacks and the
+// `updating` flag (unexported: read through reflection, read-only) are recorded; a failed update
+// must leave them unchanged (oracle) and the flag is compared with the model after every step
+// (`F`). In a share of the traces a CONTROL document receives the same history minus the failed
+// updates; at the end of the trace both histories are unwound and replayed (Undo*, Redo*) and
+// must agree step by step: a failed update is indistinguishable from no update at all.
 
 import (
 	"fmt"
 	"math/rand"
+	"os"
+	"reflect"
 	"strings"
 
 	"github.com/yorkie-team/yorkie/pkg/document"
@@ -24,12 +34,97 @@ type updState struct {
 	changes  int
 	cpC      uint32
 	cpS      int64
+	// the undo history as the API shows it, and as it is (stack depths; -1 = not observable)
+	canUndo, canRedo     bool
+	undoDepth, redoDepth int
+	updating             string
+}
+
+// histObs reads the depths of the undo / redo stacks and the `updating` flag of a Document.
+// They are unexported: reflection, read-only (Len / Uint of an unexported field are permitted).
+// A field that no longer exists is reported as -1 / "unobservable" (the `F` line then differs
+// from the model's, which says that this harness has to follow the code).
+func histObs(d *document.Document) (undo, redo int, updating string) {
+	undo, redo, updating = -1, -1, "unobservable"
+	v := reflect.ValueOf(d).Elem()
+	if h := v.FieldByName("history"); h.IsValid() && h.Kind() == reflect.Ptr && !h.IsNil() {
+		if f := h.Elem().FieldByName("undoStack"); f.IsValid() && f.Kind() == reflect.Slice {
+			undo = f.Len()
+		}
+		if f := h.Elem().FieldByName("redoStack"); f.IsValid() && f.Kind() == reflect.Slice {
+			redo = f.Len()
+		}
+	}
+	if f := v.FieldByName("updating"); f.IsValid() && f.Kind() == reflect.Struct {
+		if x := f.FieldByName("v"); x.IsValid() && x.CanUint() {
+			updating = fmt.Sprint(x.Uint() != 0)
+		}
+	}
+	return
 }
 
 func snapUpd(d *document.Document) updState {
 	p := d.CreateChangePack()
+	u, r, f := histObs(d)
 	return updState{root: d.Marshal(), vv: ShowVV(d.VersionVector()), changes: len(p.Changes),
-		cpC: d.Checkpoint().ClientSeq, cpS: d.Checkpoint().ServerSeq}
+		cpC: d.Checkpoint().ClientSeq, cpS: d.Checkpoint().ServerSeq,
+		canUndo: d.CanUndo(), canRedo: d.CanRedo(), undoDepth: u, redoDepth: r, updating: f}
+}
+
+// histView is what two documents with the same history must agree on.
+func histView(d *document.Document) string {
+	u, r, f := histObs(d)
+	return fmt.Sprintf("root=%s canUndo=%v canRedo=%v undoDepth=%d redoDepth=%d updating=%s locals=%d",
+		d.Marshal(), d.CanUndo(), d.CanRedo(), u, r, f, len(d.CreateChangePack().Changes))
+}
+
+// unwindAgainstControl undoes and redoes the whole history of d and of the control document in
+// lockstep; every difference is something a failed update left behind.
+func unwindAgainstControl(c *Ctx, d, ctl *document.Document, failed int) {
+	if a, b := histView(d), histView(ctl); a != b {
+		c.Oracle("after %d failed update(s) the document differs from a control that never saw them: doc{%s} control{%s}", failed, a, b)
+		return
+	}
+	step := func(what string, f func(x *document.Document) error) bool {
+		var e1, e2 error
+		r1 := safely(func() { e1 = f(d) })
+		r2 := safely(func() { e2 = f(ctl) })
+		if fmt.Sprint(e1, r1) != fmt.Sprint(e2, r2) {
+			c.Oracle("%s after %d failed update(s): doc says (%v, panic=%v), the control that never saw them says (%v, panic=%v)", what, failed, e1, r1, e2, r2)
+			return false
+		}
+		if a, b := histView(d), histView(ctl); a != b {
+			c.Oracle("%s after %d failed update(s) gives a different result than on a control that never saw them: doc{%s} control{%s}", what, failed, a, b)
+			return false
+		}
+		if e1 != nil || r1 != nil {
+			// identical on both documents: not a trace of a failed update (undo itself is C14's subject)
+			msg := fmt.Sprint(e1, r1)
+			if len(msg) > 60 {
+				msg = msg[:60]
+			}
+			c.Count("unwind:" + what + ":fails-on-both:" + msg)
+			if os.Getenv("VERIF_DEBUG") != "" {
+				fmt.Fprintf(os.Stderr, "%s: %s fails on the document and on the control alike: %v %v\n", c.traceID, what, e1, r1)
+			}
+			return false
+		}
+		return true
+	}
+	n := 0
+	for n < 4 && d.CanUndo() {
+		if !step("Undo", (*document.Document).Undo) {
+			return
+		}
+		n++
+		c.Count("unwind:undo")
+	}
+	for ; n > 0 && d.CanRedo(); n-- {
+		if !step("Redo", (*document.Document).Redo) {
+			return
+		}
+		c.Count("unwind:redo")
+	}
 }
 
 // safely runs f and reports a panic as a value (a panic in the real code must never kill the harness).
@@ -55,6 +150,10 @@ func observeUpd(c *Ctx, d *document.Document) {
 	c.Cmd("L")
 	p := d.CreateChangePack()
 	c.Obs("locals=%d seq=%d", len(p.Changes), p.Checkpoint.ClientSeq)
+	// between two calls the flag is down: Undo/Redo/ClearHistory do not refuse
+	c.Cmd("F")
+	_, _, f := histObs(d)
+	c.Obs("updating=%s", f)
 }
 
 // callsOn performs k random API calls driven by seed on root.
@@ -90,6 +189,13 @@ func runDocUpdScenario(c *Ctx, name string) error {
 			{func(r *json.Object) { r.GetArray("l").InsertIntegerAfter(0, 5) }, "ok"},
 		},
 	}
+	// a panicking callback must leave the undo history usable (the `updating` flag is lowered on
+	// the panic path as well): CanUndo stays true, Undo and Redo work and give the content back
+	scenarios["panic-keeps-history"] = []docUpdStep{
+		{func(r *json.Object) { r.SetInteger("a", 1) }, "ok"},
+		{func(r *json.Object) { r.SetInteger("a", 2) }, "ok"},
+		{func(r *json.Object) { r.SetInteger("b", 2) }, "panic"},
+	}
 	steps, ok := scenarios[name]
 	if !ok {
 		return fmt.Errorf("docupd: unknown scenario %q", name)
@@ -102,7 +208,7 @@ func runDocUpdScenario(c *Ctx, name string) error {
 	a[11] = 7
 	d.SetActor(a)
 	d.SetStatus(document.StatusAttached)
-	for _, st := range steps {
+	for si, st := range steps {
 		cp, err := d.InternalDocument().DeepCopy()
 		if err != nil {
 			return err
@@ -141,6 +247,20 @@ func runDocUpdScenario(c *Ctx, name string) error {
 			}
 		}
 		observeUpd(c, d)
+		if st.out != "ok" && pre.canUndo && si == len(steps)-1 {
+			// (last step only: the model does not follow undo/redo)
+			// the history is usable right after the failed update: Undo, then Redo, bring the content back
+			var e1, e2 error
+			before := d.Marshal()
+			r1 := safely(func() { e1 = d.Undo() })
+			mid := d.Marshal()
+			r2 := safely(func() { e2 = d.Redo() })
+			if e1 != nil || e2 != nil || r1 != nil || r2 != nil {
+				c.Oracle("after a failed update (%s): Undo -> (%v, panic=%v), Redo -> (%v, panic=%v)", st.out, e1, r1, e2, r2)
+			} else if mid == before || d.Marshal() != before {
+				c.Oracle("after a failed update (%s): Undo+Redo do not work: before=%s after-undo=%s after-redo=%s", st.out, before, mid, d.Marshal())
+			}
+		}
 	}
 	c.Nontrivial()
 	return nil
@@ -150,7 +270,9 @@ func runDocUpd(c *Ctx) error {
 	c.stats.Rule = "single Document with random updates whose callback succeeds / returns an error after j calls / " +
 		"panics after j calls / is rejected by the size limit, interleaved with remote change packs from a peer and " +
 		"acknowledgements; the operations the callback performs are captured on a deep copy and replayed by the model; " +
-		"root Marshal, clone Marshal, pending change count compared after every step; non-trivial = trace contains a " +
+		"root Marshal, clone Marshal, pending change count and the `updating` flag compared after every step; CanUndo/CanRedo and the stack " +
+		"depths must survive a failed update; in 40% of the traces the history is finally unwound (Undo*, Redo*) in lockstep with a control " +
+		"document that never saw the failed updates; non-trivial = trace contains a " +
 		"failing or panicking callback with j >= 1 followed by a successful update; distinct by trace hash"
 	r := c.Rng
 	defer func() { noArraySet = false }()
@@ -182,6 +304,17 @@ func runDocUpd(c *Ctx) error {
 		peer := document.New("doc-upd")
 		peer.SetActor(mkActor(r, 1))
 		peer.SetStatus(document.StatusAttached)
+		// the control: same actor, same history minus the failed updates (decided by a PRNG of its
+		// own so that the main stream – and with it every generated trace – stays what it was)
+		r2 := rand.New(rand.NewSource(c.Seed*1000003 + int64(i) + 17))
+		var ctl *document.Document
+		if r2.Intn(5) < 2 {
+			ctl = document.New("doc-upd")
+			ctl.SetActor(d.ActorID())
+			ctl.SetStatus(document.StatusAttached)
+			c.Count("trace:with-control")
+		}
+		failedN := 0
 		var peerDelivered int
 		var dDelivered int
 		purged := false
@@ -269,6 +402,19 @@ func runDocUpd(c *Ctx) error {
 				c.Cmd("UPD %s %d", out, j)
 				c.Obs("done")
 				if out != "ok" {
+					failedN++
+				} else if ctl != nil && !panicked && uerr == nil {
+					if rec := safely(func() {
+						uerr = ctl.Update(func(root *json.Object, p *presence.Presence) error {
+							callsOn(seed, j, root, c)
+							return nil
+						})
+					}); rec != nil || uerr != nil {
+						c.Oracle("the control document failed an update the document accepted: %v %v", rec, uerr)
+						ctl = nil
+					}
+				}
+				if out != "ok" {
 					if uerr == nil && !panicked {
 						c.Oracle("update with outcome %s reported success", out)
 					}
@@ -321,6 +467,15 @@ func runDocUpd(c *Ctx) error {
 				}); rec != nil {
 					c.Oracle("ApplyChangePack panicked: %v", rec)
 				}
+				if ctl != nil {
+					if wire2, err := roundTrip(fresh); err != nil {
+						return err
+					} else if err := ctl.ApplyChangePack(change.NewPack(ctl.Key(),
+						ctl.Checkpoint().NextServerSeq(ctl.Checkpoint().ServerSeq+int64(len(wire2))), wire2, nil, nil)); err != nil {
+						c.Oracle("the control document failed to apply a remote pack: %v", err)
+						ctl = nil
+					}
+				}
 				// the peer also needs d's view to stay causally sane for later edits: not required here
 				c.Cmd("REM")
 				c.Obs("done")
@@ -354,10 +509,29 @@ func runDocUpd(c *Ctx) error {
 					c.Count("ack:purged-something")
 					purged = true
 				}
+				if ctl != nil {
+					var mv time.VersionVector
+					if minVV != nil {
+						mv = minVV.DeepCopy()
+					}
+					pc := ctl.CreateChangePack()
+					if err := ctl.ApplyChangePack(change.NewPack(ctl.Key(),
+						change.NewCheckpoint(ctl.Checkpoint().ServerSeq, pc.Checkpoint.ClientSeq), nil, mv, nil)); err != nil {
+						c.Oracle("the control document failed an acknowledgement: %v", err)
+						ctl = nil
+					}
+				}
 				c.Cmd("ACK %d", n)
 				c.Obs("done")
 			}
 			observeUpd(c, d)
+		}
+		// unwind and replay the history against the control (no model line follows: the trace ends)
+		if ctl != nil {
+			if failedN > 0 {
+				c.Count("trace:control-compared-after-failures")
+			}
+			unwindAgainstControl(c, d, ctl, failedN)
 		}
 		if nontrivial {
 			c.Nontrivial()
